@@ -241,6 +241,7 @@ package file
 //@ at call (github.com/ipld/go-ipld-prime/datamodel.Node).IsNull#1 assert asks-the-resolved-node-only: d.deferredFileNode.lsys == nil
 
 //@ func (*file.deferredReader).Read
+//@ forbids (github.com/ipld/go-ipld-prime/datamodel.Node).AsBytes
 //@ at return ghost drained(d) = drained(d) || err == io.EOF
 //@ ensures load-failure-is-returned: err == nil ==> loadFailed == old(loadFailed)
 //@ ensures stays-unresolved-on-error: old(d.ReadSeeker) == nil && d.ReadSeeker == nil ==> err != nil && result == 0
